@@ -818,6 +818,154 @@ def second_decoder(out, data, fmt):
     return None if got == data else "system liblzma decodes the output to different data"
 
 
+# ------------------------------------------------------------------------------------------------
+# container-encoder tie: the Lean encoder models (Model/XzEncode.lean) reassemble the container from the C encoder's own
+# per-Block Compressed Data and must reproduce the C output byte for byte
+# ------------------------------------------------------------------------------------------------
+
+TIE_MAX_INPUT = 1 << 20      # the List-based model is fed at most this many input bytes per case
+
+
+def tie_bounds(n):
+    """lzma2_bound, lzma_block_buffer_bound64, lzma_stream_buffer_bound for a small n (no overflow guards needed)."""
+    l2 = n + (n + 65535) // 65536 * 3 + 1
+    bb = 92 + (l2 + 3) // 4 * 4
+    return l2, bb, bb + 48
+
+
+def tie_uncompressed_chunks(data):
+    out, first = bytearray(), True
+    for i in range(0, len(data), 65536):
+        ch = data[i:i + 65536]
+        out += bytes([1 if first else 2, (len(ch) - 1) >> 8, (len(ch) - 1) & 0xFF]) + ch
+        first = False
+    return bytes(out) + b"\0"
+
+
+def tie_chain_line(c):
+    """The harness op that resolves the case's chain into functional filter tokens (presets -> dictionary size)."""
+    toks, api = c["line"].split(), c["api"]
+    if api == "easy":
+        return "relchain L2:%s:-1:-1:-1:-1:-1:-1:-1:-1" % toks[1]
+    if api in ("sbe", "bbe"):
+        return "relchain " + " ".join(toks[4:])
+    if api == "strm":
+        return "relchain " + " ".join(toks[5:])
+    if api == "mt":
+        return "relchain " + " ".join(toks[7:])
+    if api == "alone":
+        return "relchain " + toks[3]
+    return None
+
+
+def tie_lines(c, ftoks):
+    """-> (list of alternative model ops, expectation suffix) or a string saying why the case is not tied.
+    One alternative normally; two when "fell back to uncompressed chunks" cannot be told from the bytes alone."""
+    api, out, data, check = c["api"], c["out"], c["data"], c["check"]
+    toks = c["line"].split()
+    if len(data) > TIE_MAX_INPUT:
+        return "input-too-large"
+    if api == "alone":
+        t = ftoks[0].split(":")
+        return ["encalone %s %s %s %s %s %s" % (hexs(out), t[2], t[3], t[4], t[5], hexs(out[13:]))], ""
+    csz = L.CHECK_SIZES[check]
+    if api in ("bbe", "bue"):
+        st, _, info = L.parse_lone_block(out, check, data)
+        blocks, pos = [info], 0
+    else:
+        st, _, blocks = L.parse_xz(out, check, data)
+        pos = 12
+    if st != "ok":
+        return "not-parsed"
+    cfg_is_min = len(ftoks) == 1 and ftoks[0].startswith("lzma2:") and L.dict_code_for(int(ftoks[0].split(":")[1])) == 0
+    pairs, ambiguous, dpos, seen = [], False, 0, {}
+    for b in blocks:
+        payload = out[pos + b["hs"]:pos + b["hs"] + b["cs"]]
+        piece = data[dpos:dpos + b["us"]]
+        tok = hexs(payload)
+        if api != "strm" and b["filters"] == [(L.LZMA2, b"\x00")] and payload == tie_uncompressed_chunks(piece):
+            if cfg_is_min and api != "bue":
+                ambiguous = True
+            else:
+                tok = "!"
+        if seen.setdefault(piece, tok) != tok:
+            return "same-piece-different-payload"
+        pairs.append((hexs(piece), tok))
+        pos += b["hs"] + b["cs"] + (-b["cs"]) % 4 + csz
+        dpos += b["us"]
+    f = "%d %s" % (len(ftoks), " ".join(ftoks)) if ftoks else "0"
+
+    def ptoks(force_fallback):
+        return " ".join("%s %s" % (d, "!" if force_fallback else p) for d, p in pairs)
+
+    alts = [False, True] if ambiguous else [False]
+    if api in ("bbe", "bue"):
+        avail = tie_bounds(len(data))[1] + int(toks[2])
+        b = blocks[0]
+        return (["encblock %d %d %d %s %s %s" % (1 if api == "bbe" else 0, avail, check, hexs(out), f, ptoks(a)) for a in alts],
+                " %d %d" % (b["hs"] + b["cs"] + csz, b["us"]))
+    if api in ("easy", "sbe"):
+        avail = tie_bounds(len(data))[2] + int(toks[3] if api == "easy" else toks[2])
+        head = "encxz sc %d %d" % (avail, check)
+    elif api == "mt":
+        bs = int(toks[3])
+        if bs == 0:
+            bs = max([int(t.split(":")[1]) * 3 for t in ftoks if t.startswith("lzma2:")] + [1 << 20])
+        head = "encxz mt %d %d" % (bs, check)
+    else:
+        head = "encxz st %d" % check
+    return ["%s %s %s %d %s" % (head, hexs(out), f, len(pairs), ptoks(a)) for a in alts], ""
+
+
+def run_tie(ctx, exe, mexe, cases, idxs):
+    """Stage K, container-encoder tie over the relational cases `idxs` (those whose C output passed every check above)."""
+    chain_lines, chain_idx = [], []
+    for i in idxs:
+        ln = tie_chain_line(cases[i])
+        if ln is not None:
+            chain_lines.append(ln)
+            chain_idx.append(i)
+    c_out, fail = run_parts(exe, chain_lines)
+    if fail is not None:
+        ctx.obligation_broken("harness c02 failed on a relchain op", str(fail[2])[:2000])
+        return
+    ftoks = {i: (o or "").split() for i, o in zip(chain_idx, c_out)}
+    ops, owner, expect = [], [], {}
+    for i in idxs:
+        c = cases[i]
+        r = tie_lines(c, ftoks.get(i, []))
+        if isinstance(r, str):
+            ctx.count("tie-skipped:" + r)
+            continue
+        alts, suffix = r
+        expect[i] = suffix
+        for a in alts:
+            ops.append(a)
+            owner.append(i)
+    m_out, mfail = run_parts(mexe, ops, [len(o) for o in ops])
+    if mfail is not None:
+        ctx.obligation_broken("model driver xzm_c02 failed on a container-encoder tie op", str(mfail[2])[:2000])
+        return
+    verdict = {}
+    for i, o in zip(owner, m_out):
+        c = cases[i]
+        good = (o or "") == "ok %d%s" % (len(c["out"]), expect[i])
+        verdict.setdefault(i, []).append((good, o))
+    bad = 0
+    for i, vs in verdict.items():
+        c = cases[i]
+        ctx.count("tie:" + c["api"])
+        if any(g for g, _ in vs):
+            continue
+        bad += 1
+        if bad <= 3:
+            ctx.obligation_broken("correspondence C02: the container encoder model (Model/XzEncode.lean), fed with the C encoder's own "
+                                  "payload bytes, does not reproduce the C output (%s)" % c["api"],
+                                  json.dumps({"op": c["line"][:2000], "chain": ftoks.get(i), "model": [o for _, o in vs],
+                                              "c_output_len": len(c["out"]), "c_output_head": c["out"][:64].hex()}))
+    ctx.cov["correspondence"].update({"container_tie_cases": len(verdict), "container_tie_mismatches": bad})
+
+
 def run(ctx):
     ctx.cov["rule"] = ("functional: op lines for every L0-L2 codec generated from the seeded PRNG (boundary VLI values 2^(7k)±2, every check ID, "
                        "every dictionary/lclppb byte, valid fields built by an independent Python encoder, their byte/bit mutations with and "
